@@ -491,6 +491,63 @@ theorem nonvacuous_heap_handles :
     ((addContainerH exB 3 "a").bind fun p => abs p.1 3).isSome = true := by
   decide +kernel
 
+/-- the value-level result the run below must have -/
+def exRunValue : Option Node :=
+  (abs exB 3).bind (fun n => match n with
+    | .cont d => (match brun d [.addValueAt "a.c" (.leaf ⟨"string", "v"⟩), .remove "n"] with
+      | .ok d' => some (.cont d')
+      | _ => none)
+    | _ => none)
+
+def exRunCheck : Bool :=
+  match hstep exB (.addValueAt 3 "a.c" 4) with
+  | .ok p =>
+    match hstep p.1 (.remove 3 "n") with
+    | .ok q => decide (abs q.1 3 = exRunValue) && (abs q.1 3).isSome
+    | _ => false
+  | _ => false
+
+/-- a `TreeRun` on `exB`: `root.AddValueAt("a.c", #4)` then `root.Remove("n")` — every hypothesis of
+    `heap_run_tree` / `heap_step_refines_bstep` is satisfiable, and the run is the value-level `brun` -/
+theorem nonvacuous_heap_tree_run :
+    ∃ h', TreeRun 3 exB [.addValueAt 3 "a.c" 4, .remove 3 "n"] h' ∧ abs h' 3 = exRunValue ∧
+      (abs h' 3).isSome = true := by
+  have hleaf4 : exB.get? 4 = some (.leaf ⟨"string", "v"⟩) := rfl
+  have hok1 : (HOp.addValueAt 3 "a.c" 4).TreeOk exB 3 := by
+    refine ⟨.refl _, fun v hv => ?_⟩
+    simp only [HOp.value, Option.some.injEq] at hv
+    subst hv
+    refine ⟨by decide, ?_, ?_⟩
+    · intro a c ha hg i j ki kj hi
+      have := Reach.of_leaf hleaf4 ha
+      subst this
+      rw [hleaf4] at hg; cases hg
+      simp [Cell.kids] at hi
+    · intro b _ hb hcomp
+      have := Reach.of_leaf hleaf4 hb
+      subst this
+      obtain ⟨cell, hgc, hl⟩ := hcomp
+      rw [hleaf4] at hgc; cases hgc
+      simp [Cell.isLeaf] at hl
+  have key : exRunCheck = true := by decide +kernel
+  unfold exRunCheck at key
+  cases he1 : hstep exB (.addValueAt 3 "a.c" 4) with
+  | err => rw [he1] at key; cases key
+  | panic => rw [he1] at key; cases key
+  | ok p1 =>
+    obtain ⟨h1, r1⟩ := p1
+    rw [he1] at key
+    simp only at key
+    have hok2 : (HOp.remove 3 "n").TreeOk h1 3 := ⟨.refl _, fun v hv => by simp [HOp.value] at hv⟩
+    cases he2 : hstep h1 (.remove 3 "n") with
+    | err => rw [he2] at key; cases key
+    | panic => rw [he2] at key; cases key
+    | ok p2 =>
+      obtain ⟨h2, r2⟩ := p2
+      rw [he2] at key
+      simp only [Bool.and_eq_true, decide_eq_true_eq] at key
+      exact ⟨h2, .cons hok1 he1 (.cons hok2 he2 (.nil _)), key.1, key.2⟩
+
 end heap
 
 end Ytk.C03
